@@ -39,6 +39,9 @@ pub enum Op {
     EnableUnsol(u8),
     DisableUnsol(u8),
     Reconnect,
+    /// a new connection pre-empts the old session: no disconnect is seen by the old session
+    #[serde(alias = "Preempt")]
+    Preempt,
     // --- C13 only ---
     Broadcast(u8, u8),
     WriteRestart(bool),
@@ -1223,8 +1226,9 @@ impl<'a> Sess<'a> {
                 self.rig.send(&f);
                 self.settle_and_process(None).await;
             }
-            Op::Reconnect => {
-                label(&mut self.f, "reconnect");
+            Op::Reconnect | Op::Preempt => {
+                let preempt = matches!(op, Op::Preempt);
+                label(&mut self.f, if preempt { "preempt" } else { "reconnect" });
                 if let Some(o) = &self.out_unsol {
                     if o.uncertain && !o.is_null {
                         // the series may have timed out at this very instant, starting a retry delay
@@ -1242,8 +1246,10 @@ impl<'a> Sess<'a> {
                 }
                 self.deferred_read_seq = None;
                 self.pending_enable.clear();
-                self.rig.disconnect().await;
-                self.process(None);
+                if !preempt {
+                    self.rig.disconnect().await;
+                    self.process(None);
+                }
                 self.rig.connect().await;
                 self.broadcast_pending = self.broadcast_pending; // survives: session state is kept
                 self.settle_and_process(None).await;
@@ -1479,6 +1485,7 @@ pub fn case_strategy(c13: bool, max_ops: usize) -> BoxedStrategy<Case> {
         (2, (1u8..8).prop_map(Op::EnableUnsol).boxed()),
         (1, (1u8..8).prop_map(Op::DisableUnsol).boxed()),
         (1, Just(Op::Reconnect).boxed()),
+        (1, Just(Op::Preempt).boxed()),
     ];
     if c13 {
         ops.push((
